@@ -55,6 +55,8 @@ iter:
 	for n := 0; true; n++ {
 		for i := 0; i < cnt; i++ {
 			switch ta := args[i].(type) {
+			case nil:
+				break iter // the empty list
 			case slip.String:
 				ra := []rune(ta)
 				if len(ra) <= n {
